@@ -18,7 +18,19 @@ STRINGS = [b'""', b'"\\a"', b'"\\b"', b'"\\f"', b'"\\n"', b'"\\r"', b'"\\t"', b'
            b'"\xc3"', b'"\xe2\x82"', b'"\n"', b'"a', b'"', b'"\\', b'"\\u"', b'"\xef\xbb\xbf"', b"'a'", b'"a" "b"',
            b'"%s"', b'"$(x)"', b'"/"', b'"."', b'".."', b'"a/b"', b'" "', b'"\\x00"']
 
+# long literals (error messages abbreviate them): ASCII, well-formed UTF-8, and runs of
+# continuation bytes at either end, raw and as escapes
+STRINGS += [b'"' + b"a" * 40 + b'"', b'"' + "é".encode() * 20 + b'"', b'"' + b"a" * 16 + b"\x80" * 9 + b'"',
+            b'"' + b"\x80" * 9 + b"a" * 20 + b'"', b'"' + b"a" * 16 + b"\\x80" * 9 + b'"',
+            b'"' + b"\\x80" * 9 + b"a" * 20 + b'"', b'"' + b"\xbf" * 30 + b'"', b'"' + b"a" * 23 + b"\xc3" + b'"',
+            b'"' + b"a" * 7 + b"\xe2\x82" + b"b" * 20 + b'"']
+
 STRING_POSITIONS = [
+    ("bindint", "compile", b"stage S(\n    in  int x,\n    src py \"s\",\n)\n\ncall S(\n    x = %s,\n)\n"),
+    ("bindintarr", "compile", b"stage S(\n    in  int[] x,\n    src py \"s\",\n)\n\ncall S(\n    x = [%s, 1, %s],\n)\n"),
+    ("bindintmap", "compile", b"stage S(\n    in  map<int> x,\n    src py \"s\",\n)\n\ncall S(\n    x = {\"k\": %s},\n)\n"),
+    ("bindstructfield", "compile", b"struct T(\n    int a,\n)\n\nstage S(\n    in  T x,\n    src py \"s\",\n)\n\ncall S(\n    x = {a: %s},\n)\n"),
+    ("binddisabled", "compile", b"stage S(\n    in  int x,\n    src py \"s\",\n)\n\npipeline P(\n)\n{\n    call S(\n        x = 1,\n    ) using (\n        disabled = %s,\n    )\n\n    return ()\n}\n"),
     ("value", "valexp", b"%s"),
     ("mapkey", "valexp", b"{%s: 1}"),
     ("include", "unchecked", b"@include %s\n"),
@@ -65,6 +77,13 @@ ODD_PROGRAMS = [
     STAGE + b"pipeline P(\n    out int y,\n)\n{\n    return (\n        y = P.y,\n    )\n}\n",
     STAGE + b"pipeline P(\n    out int y,\n)\n{\n    call P(\n    )\n    return (\n        y = P.y,\n    )\n}\n",
     STAGE + b"pipeline P(\n    in int[] xs,\n    out int[] y,\n)\n{\n    map call S(\n        x = split self.xs,\n    )\n    return (\n        y = S.y,\n    )\n    retain (\n        S.y,\n    )\n}\n",
+    # calls written against their dependencies, chained through split arguments; cycles through them
+    b"stage G(\n    out int[] xs,\n    src py \"g\",\n)\n\nstage M(\n    in  int x,\n    out int[] ys,\n    src py \"m\",\n)\n\npipeline P(\n    out int[][] o,\n)\n{\n"
+    b"    map call M as M2(\n        x = split M1.ys,\n    )\n\n    map call M as M1(\n        x = split G.xs,\n    )\n\n    call G(\n    )\n\n    return (\n        o = M2.ys,\n    )\n}\n\ncall P(\n)\n",
+    b"stage M(\n    in  int x,\n    out int[] ys,\n    src py \"m\",\n)\n\npipeline P(\n    out int[][] o,\n)\n{\n"
+    b"    map call M as M2(\n        x = split M1.ys,\n    )\n\n    map call M as M1(\n        x = split M2.ys,\n    )\n\n    return (\n        o = M2.ys,\n    )\n}\n",
+    STAGE + b"pipeline P(\n    out int y,\n)\n{\n    call S as C(\n        x = B.y,\n    )\n\n    call S as B(\n        x = A.y,\n    )\n\n    call S as A(\n        x = C.y,\n    )\n\n    return (\n        y = C.y,\n    )\n}\n",
+    STAGE + b"pipeline P(\n    in  int[] xs,\n    out int[] y,\n)\n{\n    map call S as B(\n        x = split A.y,\n    )\n\n    map call S as A(\n        x = split self.xs,\n    )\n\n    return (\n        y = B.y,\n    )\n}\n\ncall P(\n    xs = [1, 2],\n)\n",
     b"struct T(\n    T a,\n)\n",
     b"struct T(\n    U a,\n)\n\nstruct U(\n    T b,\n)\n",
     b"struct T(\n    int a,\n    int a,\n)\n",
